@@ -19,7 +19,7 @@ type Program struct {
 	Sizes      types.Sizes
 	fnInfos    sync.Map // *ssa.Function -> *fnInfo
 	rtErrType  types.Type
-	NoInitPkgs map[string]bool // package paths whose init is never run
+	NoInitPkgs map[string]bool          // package paths whose init is never run
 	ModelFns   map[string]*ssa.Function // callee name -> replacement (Go-source models)
 	Trace      bool
 	Tier       int
@@ -28,11 +28,11 @@ type Program struct {
 }
 
 type fnInfo struct {
-	regIdx map[ssa.Value]int
-	nregs  int
-	intr   intrinsic // nil if none
-	model  *ssa.Function
-	name   string
+	regIdx    map[ssa.Value]int
+	nregs     int
+	intr      intrinsic // nil if none
+	model     *ssa.Function
+	name      string
 	isPkgInit bool
 }
 
@@ -62,11 +62,11 @@ type targetPanic struct{ v value }
 
 // Violation describes a failed obligation on one path.
 type Violation struct {
-	Label  string
-	Msg    string
-	Model  map[string]uint64
-	Kind   string // "assert", "panic", "exit", "wedge"
-	Where  string
+	Label string
+	Msg   string
+	Model map[string]uint64
+	Kind  string // "assert", "panic", "exit", "wedge"
+	Where string
 }
 
 type Observation struct {
@@ -76,9 +76,9 @@ type Observation struct {
 }
 
 type NondetRec struct {
-	Name  string
-	W     int
-	T     *term.Term
+	Name string
+	W    int
+	T    *term.Term
 }
 
 // PathResult is what one execution of the harness produced.
@@ -128,20 +128,22 @@ type Machine struct {
 	unknown int
 
 	// environment model state
-	udpLog   []value
-	timers   int
-	exitOK   bool
-	funcs    map[string]int
-	wantFuncs bool
-	inNested int
-	KnownPanicOK func(where string) bool
-	ss       *syncState
-	now      int64
-	wc       *WorkerCache
-	connClosed bool
-	initDepth  int
-	lastPkg  *ssa.Package
-	fcount   map[*fnInfo]int
+	udpLog        []value
+	timers        int
+	exitOK        bool
+	funcs         map[string]int
+	wantFuncs     bool
+	inNested      int
+	KnownPanicOK  func(where string) bool
+	ss            *syncState
+	now           int64
+	wc            *WorkerCache
+	connClosed    bool
+	tag           string
+	lastRecovered string
+	initDepth     int
+	lastPkg       *ssa.Package
+	fcount        map[*fnInfo]int
 }
 
 func (m *Machine) info(fn *ssa.Function) *fnInfo {
@@ -168,7 +170,7 @@ var stdInit = map[string]bool{
 	"errors": true, "io": true, "encoding/binary": true, "strconv": true, "strings": true,
 	"bytes": true, "unicode": true, "unicode/utf8": true, "time": true, "sort": true,
 	"math": true, "math/bits": true, "net": true, "slices": true, "encoding/hex": true,
-"io/fs": true,
+	"io/fs": true,
 }
 
 var noInitThirdParty = []string{
@@ -242,7 +244,7 @@ func NewMachine(p *Program, s *smt.Solver, lim Limits, prefix []uint64, wc *Work
 	}
 	m := &Machine{
 		wc: wc,
-		P: p, F: term.NewFactory(), S: s, Lim: lim,
+		P:  p, F: term.NewFactory(), S: s, Lim: lim,
 		globals:  make(map[*ssa.Global]*value),
 		pkgState: make(map[*ssa.Package]int),
 		prefix:   prefix,
